@@ -1,3 +1,4 @@
+;@opaque binOK unOK
 ; C02 operator semantics.  binOK(op, l, r, res, err): `res`/`err` is an admissible outcome of `l op r`.
 ; "open" rows (numeric-looking strings under arithmetic/comparison/bitwise operators) admit every outcome: the statement is silent.
 (define-fun strInvolved ((l Val) (r Val)) Bool (or (and (isStr l) (or (isStr r) (isNum r))) (and (isStr r) (isNum l))))
